@@ -18,6 +18,10 @@ def std(quick_parts=16, thorough_extra=None):
 
 PROPS = {
     "C09": dict(
+        exhaustive_subspaces=dict(
+            quick=["every residue p mod 2N for every N = 1..8192 on all 11 coefficient kernels (7 for even p) with the injective probe a_i = i+1 "
+                   "(the maps are data-independent signed permutations, so one injective probe determines them); counts per N in monitors.exhaustive_residues:*"],
+            thorough=["every residue p mod 2N for every N = 1..65536 on all 11 coefficient kernels; far representatives r + 2N t for N <= 4096"]),
         runs=std(),
         rule=("case = (kernel group, N, block of residues p mod 2N | special class list | sampled block | wrapper "
               "call sequence); distinct by descriptor hash; non-trivial when N >= 2 (maps differ from identity "
@@ -29,6 +33,10 @@ PROPS = {
                      "determines the signed permutation", ASAN_NOTE],
     ),
     "C05": dict(
+        exhaustive_subspaces=dict(
+            quick=["znx_normalize: all (in, carry_in) pairs of the window [-2^(k+1), 2^(k+1)]^2 for k = 1,2,3 x 6 presence shapes x 7 aliasings",
+                   "vec_znx_normalize_base2k: all limb-value combinations of the window for k = 1,2,3, a_size <= 3, res_size <= a_size+1"],
+            thorough=["same windows, k up to 5 for the primitive"]),
         runs=std(),
         rule=("case = one call of a normalisation entry point (entry, N, k, res_size, a_size, strides, operand family, "
               "in-place flag, range triple, dispatch) or one exhaustive window / primitive batch; distinct by descriptor "
